@@ -12,12 +12,14 @@ from translator import scope_sets
 M_CLASS_NONLOCAL = "class_attribute_counts_as_nonlocal_binding"
 M_CLASS_HIDES = "class_attribute_hides_outer_binding"
 M_LET_LIST = "let_nonlocal_removal_skips_next_name"
+M_GENFN_SETX = "setx_of_let_name_in_generator_function_comprehension"
 
 
 def _m_class_nonlocal(rec, params):
+    # an unexpected compile error that disappears exactly when the class attributes get other names
     o = rec.get("observed", {})
     v = o.get("variants", {})
-    return (rec.get("key") == "unexpected-compile-error" and "no binding for nonlocal" in str(o.get("compile_err"))
+    return (rec.get("key") == "unexpected-compile-error"
             and (v.get("class_attributes_renamed") == "pass"
                  or (v.get("both") == "pass" and v.get("declarations_split") != "pass")))
 
@@ -32,9 +34,42 @@ def _m_class_hides(rec, params):
 def _m_let_list(rec, params):
     o = rec.get("observed", {})
     v = o.get("variants", {})
-    return (rec.get("key") == "unexpected-compile-error" and "no binding for nonlocal" in str(o.get("compile_err"))
+    # the surviving name reaches the function scope: Python's "no binding for nonlocal", or Hy's
+    # "declared nonlocal after being used" when the function has already used that name itself
+    return (rec.get("key") == "unexpected-compile-error"
             and (v.get("declarations_split") == "pass"
                  or (v.get("both") == "pass" and v.get("class_attributes_renamed") != "pass")))
+
+
+def _m_genfn_setx(rec, params):
+    o = rec.get("observed", {})
+    return (rec.get("key") in ("log-differs", "exception-differs", "globals-differ")
+            and bool(o.get("generator_function_assigns_undeclared_let_variable")))
+
+
+def genfn_let_walrus_undeclared(py_src):
+    """the symptom: a compiler-made generator function (_hy_anon_*) assigns `_hy_let_<x>_<n>` with := although it
+    declares only the un-renamed <x> nonlocal/global -- returns the list of such (function, variable)"""
+    import ast
+    import re
+    out = []
+    try:
+        tree = ast.parse(py_src)
+    except SyntaxError:
+        return out
+    for fn in ast.walk(tree):
+        if not (isinstance(fn, ast.FunctionDef) and fn.name.startswith("_hy_anon")):
+            continue
+        declared = set()
+        for st in fn.body:
+            if isinstance(st, (ast.Nonlocal, ast.Global)):
+                declared.update(st.names)
+        for n in ast.walk(fn):
+            if isinstance(n, ast.NamedExpr) and isinstance(n.target, ast.Name):
+                m = re.match(r"_hy_let_(.+)_\d+$", n.target.id)
+                if m and n.target.id not in declared and m.group(1) in declared:
+                    out.append([fn.name, n.target.id])
+    return out
 
 
 def register_matchers(chk, pid):
@@ -42,6 +77,7 @@ def register_matchers(chk, pid):
     chk.matchers[p + M_CLASS_NONLOCAL] = _m_class_nonlocal
     chk.matchers[p + M_CLASS_HIDES] = _m_class_hides
     chk.matchers[p + M_LET_LIST] = _m_let_list
+    chk.matchers[p + M_GENFN_SETX] = _m_genfn_setx
 
 
 # ------------------------------------------------------------------ correspondence (T3)
@@ -218,7 +254,8 @@ def oracle(chk, pid, labelled, need):
         ref = refs[i]
         obs = {"compile_err": r.get("compile_err"), "exception": r.get("exc"), "log": r.get("log"),
                "globals": r.get("globals"), "python": (r.get("py") or "")[:3000], "detail": c[1],
-               "variants": vres.get(i, {})}
+               "variants": vres.get(i, {}),
+               "generator_function_assigns_undeclared_let_variable": genfn_let_walrus_undeclared(r.get("py") or "")}
         exp = ref[1] if ref[0] == "ok" else {"reject": list(ref[1:])}
         chk.fail(c[0], {"label": lab, "program": srcs[i], "forms": forms}, obs, exp,
                  "PYTHONPATH=%s %s %s  # job kind 'run' with this program on stdin as JSON; or: hy -c with "
